@@ -252,14 +252,14 @@ Definition substvar_texts (t : rtree) : list str := map text (filter (node_is SU
    slot of a field with no item before it stays, empty; nothing else changes — so no empty slot
    is ever created by an insertion, and the count the oracle uses (commas beyond the items - 1
    needed) never grows ([n_empty_slots], proofs/RelSepsP.sstep_never_more). *)
-Inductive slot : Type := SEmpty | SEntry | SSubst.
-Inductive ckind : Type := KComma | KItem (k : slot) | KOther.
+Inductive fslot : Type := SEmpty | SEntry | SSubst.
+Inductive ckind : Type := KComma | KItem (k : fslot) | KOther.
 Definition ck (c : rtree) : ckind :=
   if kind_is COMMA c then KComma
   else if is_entry c then KItem SEntry
   else if node_is SUBSTVAR c then KItem SSubst
   else KOther.
-Fixpoint slots_from (cur : slot) (cs : list rtree) : list slot :=
+Fixpoint slots_from (cur : fslot) (cs : list rtree) : list fslot :=
   match cs with
   | [] => [cur]
   | c :: r => match ck c with
@@ -268,10 +268,10 @@ Fixpoint slots_from (cur : slot) (cs : list rtree) : list slot :=
               | KOther => slots_from cur r
               end
   end.
-Definition tree_slots (t : rtree) : list slot := slots_from SEmpty (children t).
-Definition is_sempty (s : slot) : bool := match s with SEmpty => true | _ => false end.
-Definition is_sentry (s : slot) : bool := match s with SEntry => true | _ => false end.
-Fixpoint sep_from (cur : slot) (cs : list rtree) : bool :=
+Definition tree_slots (t : rtree) : list fslot := slots_from SEmpty (children t).
+Definition is_sempty (s : fslot) : bool := match s with SEmpty => true | _ => false end.
+Definition is_sentry (s : fslot) : bool := match s with SEntry => true | _ => false end.
+Fixpoint sep_from (cur : fslot) (cs : list rtree) : bool :=
   match cs with
   | [] => true
   | c :: r => match ck c with
@@ -282,17 +282,17 @@ Fixpoint sep_from (cur : slot) (cs : list rtree) : bool :=
   end.
 Definition field_shape (t : rtree) : bool := sep_from SEmpty (children t).
 
-Definition s_push (s : list slot) : list slot :=
+Definition s_push (s : list fslot) : list fslot :=
   match rev s with
   | SEmpty :: r => rev (SEntry :: r)
   | _ => s ++ [SEntry]
   end.
-Definition s_insert (i : nat) (s : list slot) : list slot :=
+Definition s_insert (i : nat) (s : list fslot) : list fslot :=
   match nth_index is_sentry i s with
   | Some p => firstn p s ++ SEntry :: skipn p s
   | None => s_push s
   end.
-Definition s_remove (i : nat) (s : list slot) : list slot :=
+Definition s_remove (i : nat) (s : list fslot) : list fslot :=
   match nth_index is_sentry i s with
   | Some p => if (S p =? length s) && forallb is_sempty (firstn p s)
               then firstn p s ++ [SEmpty]
@@ -300,7 +300,7 @@ Definition s_remove (i : nat) (s : list slot) : list slot :=
   | None => s
   end.
 (* [f] = the field before the operation (removing an entry's only alternative removes the entry) *)
-Definition sstep (f : lfield) (s : list slot) (o : aop) : list slot :=
+Definition sstep (f : lfield) (s : list fslot) (o : aop) : list fslot :=
   match o with
   | APush _ => s_push s
   | AInsert i _ => s_insert i s
@@ -312,12 +312,12 @@ Definition sstep (f : lfield) (s : list slot) (o : aop) : list slot :=
       end
   | _ => s
   end.
-Definition fs_step (fs : lfield * list slot) (o : aop) : lfield * list slot :=
+Definition fs_step (fs : lfield * list fslot) (o : aop) : lfield * list fslot :=
   (astep (fst fs) o, sstep (fst fs) (snd fs) o).
-Definition slots_after (ops : list aop) (f : lfield) (s : list slot) : list slot :=
+Definition slots_after (ops : list aop) (f : lfield) (s : list fslot) : list fslot :=
   snd (fold_left fs_step ops (f, s)).
 (* the oracle's count (vlib/props/c11.py empty_slots): commas beyond the (items - 1) needed *)
-Definition n_empty_slots (s : list slot) : nat :=
+Definition n_empty_slots (s : list fslot) : nat :=
   (length s - 1) - (count_if (fun x => negb (is_sempty x)) s - 1).
 
 (* C11, in full: from the empty field or any field that parses without error (substitution
